@@ -7,7 +7,7 @@ import random
 
 import torch
 
-from .. import probes, zoo
+from .. import env, probes, zoo
 
 ID = "C12"
 LEVEL = "exploration"
@@ -18,7 +18,7 @@ ASSUMPTIONS = ["grid model: contiguous steps from ts[0]; every step but the last
                "interpolation compared to an independent float64 interpolant: 1e-13 (float64 state) / 2e-5 (float32)"]
 REQUIRED_COUNTERS = ["steps", "outputs_inside_step", "outputs_on_grid", "variant_shared_outputs", "ts_list", "ts_f32",
                      "y_f32", "several_outputs_one_step", "dt_larger_than_T", "outputs_inside_clipped_last_step",
-                     "first_gap_smaller_than_dt"]
+                     "first_gap_smaller_than_dt", "default_dtype_float32_cases", "list_ts_f64_state_under_default_f32"]
 THRESHOLDS = {"interp_f64": 1e-13, "interp_f32": 2e-5}
 
 
@@ -80,13 +80,19 @@ def run_case(case):
             return tuple(lst)
         return torch.tensor(lst, dtype=torch.float32 if tdt == "f32" else torch.float64)
 
+    # the process-wide default dtype is not part of the contract: a list of times is taken in y0's dtype whatever
+    # torch.get_default_dtype() says (the harness default is float64; a third of the cases run under float32)
+    under_f32 = rng.random() < 0.35
+    cnt["default_dtype_float32_cases"] = int(under_f32)
+    cnt["list_ts_f64_state_under_default_f32"] = int(under_f32 and tdt in ("list", "tuple") and ydt == torch.float64)
+
     def run(lst):
         ts = as_ts(lst)
         pr = probes.SolverProbe()
         ts_t = ts if torch.is_tensor(ts) else torch.tensor(ts, dtype=ydt)
         bm = torchsde.BrownianInterval(t0=float(ts_t[0]), t1=float(ts_t[-1]), size=(B, sde.m), dtype=ydt,
                                        entropy=entropy, levy_area_approximation=zoo.levy_for(cell["method"]))
-        with pr.installed():
+        with env.default_dtype(torch.float32 if under_f32 else torch.float64), pr.installed():
             ys = zoo.solve(cell, sde, y0, ts, dt, bm=bm)
         return ys, pr, ts_t
 
